@@ -46,12 +46,17 @@ META = {
             "bytes, token soup, plus full execution of generated CbCore programs. Declaration-level parser state: theorems about the two table walks "
             "(TypeUtilityParser::resolveTypedefChain as coded ends within |typedef_map_|+1 iterations on every table, computes the chain where it ends and "
             "answers 'unknown type' where it runs into a cycle; the start-only cycle check is refuted on the tables of a three-line program; "
-            "detectCircularReference recurses at most |struct_definitions_|+1 deep on every table), tied to /repo by a leaf driver that links the "
-            "repository's parser and dumps typedef_map_ / the definition tables / resolveTypedefChain for generated declaration sequences; malformed "
-            "declaration programs (name reuse between tags and aliases, re-declaration, self-reference, typedef cycles entered from outside, import "
-            "cycles) with uses of every name run under the same oracle.",
+            "detectCircularReference as coded since fix 08b0ce5 - walked structs stay marked - recurses at most |struct_definitions_|+1 deep on every "
+            "table, walks every struct at most once per check, makes at most 1 + (value members of the table) activations per check - linear, "
+            "where the former code was exponential on diamonds - and answers true exactly when the struct being defined is reachable along value "
+            "members), tied to /repo by a leaf driver that links the "
+            "repository's parser and dumps typedef_map_ / the definition tables / resolveTypedefChain for generated declaration sequences and, for "
+            "struct graphs (deep diamonds and layered graphs included), the answer and the visited set of single cycle checks; malformed "
+            "declaration programs (name reuse between tags and aliases, re-declaration, self-reference, typedef cycles entered from outside, "
+            "self-mapped aliases) with uses of every name run under the same oracle; modules that import each other (cycles of 1-5 modules, "
+            "through the input or not) are parsed on the default stack and executed with their known output.",
     "note": "PARTIAL by design: no C++ semantics in Coq, so the sanitizer half is a test campaign labelled as such; statement/declaration parsers are "
-            "not modelled beyond the two table walks. Trusted: Coq kernel (vm_compute for one finite sweep), no axioms (Print Assumptions: closed for all 29 theorems), extraction "
+            "not modelled beyond the two table walks. Trusted: Coq kernel (vm_compute for one finite sweep), no axioms (Print Assumptions: closed for all 35 theorems), extraction "
             "(ExtrOcamlBasic+ExtrOcamlString), OCaml driver, leaf drivers c10_lexdump.cpp and c10_typedefs.cpp (private members of RecursiveParser reached by "
             "'#define private public' in that translation unit), Python oracle, GCC sanitizers. Depends on coq/C17/Model.v "
             "(preprocessor model) and coq/C17/Expand.v (two soundness lemmas).",
@@ -69,6 +74,18 @@ BIG_STACK = 1 << 30       # deep-nesting stream: stack-size limit raised so that
 
 # ------------------------------------------------------------------ running the implementation
 def run_case(impl_dir, data, mode="parse", args=(), big_stack=False, cpu=10, wall=300, stack=None, files=None):
+    """_run_case_once, repeated when the scratch directory of the run vanished under it (seen once: another job on the shared machine
+    removed /var/tmp/c10run-* while a case was running - the check must not crash on that)"""
+    for attempt in range(3):
+        try:
+            return _run_case_once(impl_dir, data, mode, args, big_stack, cpu, wall, stack, files)
+        except FileNotFoundError:
+            if attempt == 2:
+                raise
+            time.sleep(0.5)
+
+
+def _run_case_once(impl_dir, data, mode="parse", args=(), big_stack=False, cpu=10, wall=300, stack=None, files=None):
     """One run of `main` on the byte string `data`. Returns rc (negative = signal), CPU seconds, stdout/stderr.
     big_stack: stack-size limit 1 GiB; stack=<bytes>: that stack-size limit; default: the inherited one (8 MiB).
     files: {name: text} written next to the input (modules it imports; the input itself is t.cb, i.e. module `t`)."""
@@ -100,7 +117,9 @@ def run_case(impl_dir, data, mode="parse", args=(), big_stack=False, cpu=10, wal
         fo = open(os.path.join(d, "out"), "wb")
         fe = open(os.path.join(d, "err"), "wb")
         t0 = time.time()
-        pr = subprocess.Popen(cmd, cwd=impl_dir, env=env, stdout=fo, stderr=fe, stdin=subprocess.DEVNULL)
+        # the parser finds a module next to the importing file, the run-time loader only below the working directory: a program that
+        # comes with module files is run from its own directory (such programs import no stdlib module)
+        pr = subprocess.Popen(cmd, cwd=d if files else impl_dir, env=env, stdout=fo, stderr=fe, stdin=subprocess.DEVNULL)
         killed = [False]
 
         def kill():
@@ -663,7 +682,7 @@ AVOID_DEPTH = {
     "ternary-mid": {"asan": 1000, "plain": 10000},          # C10-ternary-swallows-nesting-error
     "x-ternary-mid": {"asan": 1000, "plain": 5000},
     "struct-self-nest": {"asan": 1000, "plain": 1000},      # C10-struct-chain-superlinear
-    "struct-diamond": {"asan": 12, "plain": 14},            # C10-struct-diamond-exponential
+    "struct-diamond": {"asan": 500, "plain": 1000},         # C10-struct-chain-superlinear (the diamond itself is linear per check since 08b0ce5)
     "enum-members-wide": {"asan": 10000, "plain": 30000},   # C10-lexer-copy-quadratic (and a linear member search per member)
     "switch-cases-wide": {"asan": 5000, "plain": 20000},
     "match-arms-wide": {"asan": 5000, "plain": 20000},
@@ -1231,7 +1250,17 @@ def td_case(rng):
             prog.append(("gvar", nm, 20 + i) if rng.random() < 0.5 else ("talias", nm, rng.choice(names + ["Z"])))
         return names + (["Z"] if any(d[0] == "talias" and d[2] == "Z" for d in prog) else []), prog
     pool = rng.sample(TD_POOL, rng.randint(2, 5))
-    return pool, [td_random_decl(rng, pool, i) for i in range(rng.randint(1, 9))]
+    prog = [td_random_decl(rng, pool, i) for i in range(rng.randint(1, 9))]
+    if rng.random() < 0.2:
+        # directed at the interpreter's own table walk (TypeManager::resolve_typedef, fix 1bf82fd): a plain typedef whose FLATTENED base is
+        # its own alias -  typedef S S;  for a struct / enum S, or  typedef A B; typedef B A;  for two structs - and a use of the name
+        a, b = rng.sample(pool, 2)
+        form = rng.random()
+        extra = ([("struct" if rng.random() < 0.6 else "enum", a), ("talias", a, a), ("gvar", a, 30)] if form < 0.5 else
+                 [("struct", a), ("struct", b), ("talias", a, b), ("talias", b, a), ("gvar", a, 30), ("gvar", b, 31)])
+        k = rng.randint(0, len(prog))
+        prog = prog[:k] + extra + prog[k:]
+    return pool, prog
 
 
 def td_exhaustive(maxlen):
@@ -1264,8 +1293,11 @@ def _td_blocks(text):
             cur.setdefault("R", {})[p[1]] = p[2] if len(p) > 2 else "-"
         elif p[0] == "DEAD":
             cur["dead"] = p[1] if len(p) > 1 else "?"
-        elif p[0] == "SELFALIAS":
-            cur["selfalias"] = p[1:] and p[1] == "1"
+        elif p[0] == "DC":
+            # one struct cycle check  X>Y : (answer, visited set on return); the model adds its activation count
+            cur.setdefault("DC", {})[p[1]] = (p[2], p[3] if len(p) > 3 else "-")
+            if len(p) > 4:
+                cur.setdefault("DCn", {})[p[1]] = int(p[4])
     return res
 
 
@@ -1333,14 +1365,49 @@ def td_leaf_run(leaf, items, cpu=1):
 
 
 # ---- struct declarations with value / pointer / array members of struct type (coq/C10/StructGraph.v: sg_run, detect)
-SG_POOL = ["A", "B", "C", "D"]
+SG_POOL = ["A", "B", "C", "D", "E", "F"]
 _SG_SUFFIX = {"v": "%s m%d;", "p": "%s* m%d;", "a": "%s[2] m%d;"}
 
 
+def sg_queries(pool):
+    """cycle checks asked of the FINAL table: detectCircularReference(X, Y, {}, ..) for every struct X of the pool (and Z, which is no
+    struct: the walk then never meets its start and marks everything reachable) and every member type Y"""
+    return ["%s>%s" % (x, y) for x in pool + ["Z"] for y in pool]
+
+
 def sg_case(rng):
-    """struct declarations over four names: forward declarations, definitions whose members are structs of the pool by value, pointer
-    or array (self-reference, mutual reference through forward declarations, re-definition that closes a cycle, diamonds)"""
-    pool = SG_POOL[:rng.randint(2, 4)]
+    """-> (names, declarations, cycle-check queries, executable).  Struct declarations: forward declarations, definitions whose members
+    are structs by value, pointer or array (self-reference, mutual reference through forward declarations, re-definition that closes a
+    cycle).  Since fix 08b0ce5 (every struct is walked once per check) SHARED sub-structures are in the stream: deep diamonds
+    (struct M(i+1) { Mi a; Mi b; }, 22..60 levels: 2^n walks before the fix) and layered graphs (every struct holds 2-3 structs of the
+    layer below); these are not executed - a variable of M40 has 2^40 members."""
+    r = rng.random()
+    if r < 0.06:
+        n = rng.randint(22, 60)
+        prog = [("sd", "M0", [("int", "v")])]
+        for i in range(1, n + 1):
+            ms = [("M%d" % (i - 1), "v"), ("M%d" % (i - 1), "v")]
+            if rng.random() < 0.2:
+                ms.insert(rng.randint(0, 2), ("M%d" % rng.randint(0, i - 1), rng.choice("vpa")))
+            prog.append(("sd", "M%d" % i, ms))
+        if rng.random() < 0.3:
+            prog.append(("sd", "M0", [("M%d" % n, rng.choice("vvpa"))]))       # re-definition of the bottom closes (or not) a cycle
+        qs = ["M%d>M%d" % (n, n - 1), "Z>M%d" % n, "M0>M%d" % n, "M%d>M%d" % (n // 2, n), "M%d>M%d" % (n, n // 2)]
+        return ["M%d" % i for i in range(n + 1)], prog, qs, False
+    if r < 0.16:
+        depth, width = rng.randint(5, 14), rng.randint(2, 3)
+        nm = lambda i, j: "L%d_%d" % (i, j)
+        prog = [("sd", nm(0, j), [("int", "v")]) for j in range(width)]
+        for i in range(1, depth + 1):
+            for j in range(width):
+                prog.append(("sd", nm(i, j), [(nm(i - 1, rng.randrange(width)), rng.choice("vvvvvpa")) for _ in range(rng.randint(2, 3))]))
+        if rng.random() < 0.4:
+            prog.append(("sd", nm(0, 0), [(nm(depth, rng.randrange(width)), rng.choice("vvvpa"))]))
+        names = [nm(i, j) for i in range(depth + 1) for j in range(width)]
+        top = [nm(depth, j) for j in range(width)]
+        qs = ["%s>%s" % (x, y) for x in top + ["Z", nm(0, 0), nm(depth // 2, 0)] for y in top + [nm(depth // 2, 1)]]
+        return names, prog, qs, False
+    pool = SG_POOL[:rng.randint(2, 6)]
     prog = []
     if rng.random() < 0.35:
         # directed: a cycle of 2..3 structs closed through value / array / pointer members, in any order, with or without forward
@@ -1354,7 +1421,7 @@ def sg_case(rng):
                 for i in range(len(cyc))]
         rng.shuffle(defs)
         prog += defs
-    for _ in range(rng.randint(0 if prog else 1, 5)):
+    for _ in range(rng.randint(0 if prog else 1, 4 + len(pool) // 2)):
         if rng.random() < 0.15:
             prog.append(("sf", rng.choice(pool)))
         else:
@@ -1362,7 +1429,7 @@ def sg_case(rng):
             others = [x for x in pool if x != n] + ["int"]
             ms = [(n if rng.random() < 0.12 else rng.choice(others), rng.choice("vvvvpaa")) for _ in range(rng.choice([0, 1, 1, 2, 2, 3]))]
             prog.append(("sd", n, ms or [("int", "v")]))
-    return pool, prog
+    return pool, prog, sg_queries(pool), True
 
 
 def sg_text(prog):
@@ -1375,16 +1442,30 @@ def sg_text(prog):
     return "\n".join(out) + "\n"
 
 
-def sg_line(prog):
-    return " ".join("sf:%s" % d[1] if d[0] == "sf" else "sd:%s:%s" % (d[1], ",".join("%s.%s" % (t, k) for t, k in d[2])) for d in prog)
+def sg_line(prog, queries=()):
+    return (" ".join("sf:%s" % d[1] if d[0] == "sf" else "sd:%s:%s" % (d[1], ",".join("%s.%s" % (t, k) for t, k in d[2])) for d in prog)
+            + " | " + ",".join(queries))
 
 
 def sg_model(cases):
-    rc, o, e = common.sh([common.model_bin(PROP), "structs"], input=("\n".join(sg_line(pg) for _, pg in cases) + "\n").encode(), timeout=900)
+    rc, o, e = common.sh([common.model_bin(PROP), "structs"], input=("\n".join(sg_line(c[1], c[2]) for c in cases) + "\n").encode(), timeout=900)
     b = _td_blocks(o)
     if rc != 0 or len(b) != len(cases):
         raise RuntimeError("c10_model structs failed rc=%d (%d blocks for %d cases): %s" % (rc, len(b), len(cases), e[-400:]))
     return b
+
+
+def sg_diff(mb, ib):
+    """where the repository's struct parser / cycle check and the model differ: verdict, key set, and per cycle-check query the answer
+    and the visited set the check leaves (= the structs it walked: carrier of struct_cycle_check_walks_each_struct_once / _linear)"""
+    if ib.get("skip"):
+        return []
+    d = [k for k in ("err", "SD") if mb.get(k) != ib.get(k)]
+    if ib.get("dead"):
+        d.append("dead")
+    elif {q: tuple(v) for q, v in mb.get("DC", {}).items()} != {q: tuple(v) for q, v in ib.get("DC", {}).items()}:
+        d.append("DC")
+    return d
 
 
 TD_KEYS = ("err", "map", "SD", "ED", "UD", "ID", "R")
@@ -1407,10 +1488,7 @@ def td_show(b):
 
 def td_exec_program(prog, queries, mblock):
     """the declarations + a main that declares a local of every name that resolves (executed: the interpreter's own typedef table,
-    TypeManager::resolve_typedef).  None when the avoidance predicate of C10-backend-typedef-self-alias-recursion holds: a
-    typedef BASE ALIAS; whose flattened value is ALIAS itself (SELFALIAS line of the model driver)."""
-    if mblock.get("selfalias"):
-        return None
+    TypeManager::resolve_typedef - self-mapped aliases  typedef S S;  included since fix 1bf82fd)."""
     body = " ".join("%s lv%d;" % (q, k) for k, q in enumerate(queries) if mblock.get("R", {}).get(q, "-") != "-")
     return (td_text([d for d in prog]) + "void main() { %s println(1); }\n" % body).encode()
 
@@ -1519,6 +1597,68 @@ def decl_programs(rng):
     return out
 
 
+def import_exec_case(rng):
+    """-> (label, source of the input module `t`, {module file: text}, expected stdout).  Modules that import each other (fix 129a992: each is
+    parsed once per import chain; the run-time loader loads each once): a cycle m1 -> m2 -> .. -> mL -> m1 (L = 1: a module that imports
+    itself), chords, optionally through the input itself (some module imports `t`); every module exports a constant function f, a
+    function g that calls the f of a module it imports, sometimes a constant and a struct; the input imports some or all of them and
+    calls their functions - the output is known."""
+    L = rng.choice([1, 2, 2, 2, 3, 3, 4, 5])
+    mods = list(range(1, L + 1))
+    via_main = rng.random() < 0.35
+    imports = {}
+    for k in mods:
+        imp = [mods[k % L]]                                   # the cycle
+        if L > 2 and rng.random() < 0.4:
+            imp.append(rng.choice([m for m in mods if m != k]))   # a chord (possibly a second import of the same module)
+        if rng.random() < 0.15:
+            imp.append(k)                                     # and itself
+        rng.shuffle(imp)
+        imports[k] = imp
+    back = rng.choice(mods) if via_main else None
+    files, has_k, has_s = {}, set(), set()
+    for k in mods:
+        lines = ["import m%d;" % m for m in imports[k]] + (["import t;"] if back == k else [])
+        lines.append("export int f%d() { return %d; }" % (k, 10 + k))
+        callee = imports[k][0]
+        lines.append("export int g%d(int x) { return f%d() * 100 + x; }" % (k, callee))
+        if rng.random() < 0.4:
+            has_k.add(k)
+            lines.append("export const int K%d = %d;" % (k, 7 * k))
+        if rng.random() < 0.3:
+            has_s.add(k)
+            lines.append("export struct S%d { int v; };" % k)
+        if back == k:
+            lines.append("export int h%d() { return ft() + %d; }" % (k, k))
+        rng.shuffle(lines)
+        lines.sort(key=lambda l: 0 if l.startswith("import") else 1)      # imports first (stable)
+        files["m%d.cb" % k] = "\n".join(lines) + "\n"
+    direct = mods if rng.random() < 0.6 else rng.sample(mods, rng.randint(1, L))
+    src = ["import m%d;" % m for m in direct]
+    if via_main:
+        src.append("export int ft() { return 1000; }")
+    body, out = [], []
+    for k in direct:
+        body.append("println(f%d());" % k); out.append(str(10 + k))
+        body.append("println(g%d(%d));" % (k, k)); out.append(str((10 + imports[k][0]) * 100 + k))
+        if k in has_k:
+            body.append("println(K%d);" % k); out.append(str(7 * k))
+        if k in has_s:
+            body.append("S%d s%d; s%d.v = %d; println(s%d.v);" % (k, k, k, 3 * k, k)); out.append(str(3 * k))
+        if back == k:
+            body.append("println(h%d());" % k); out.append(str(1000 + k))
+    src.append("void main() { %s }" % " ".join(body))
+    return ("import-exec:%d%s" % (L, ":via-main" if via_main else ""), "\n".join(src) + "\n", files, "\n".join(out) + "\n")
+
+
+def import_diamond(n):
+    """finding C10-import-diamond-exponential: module m(i+1) imports m(i) twice -> (input, files)"""
+    files = {"m0.cb": "export int f0() { return 0; }\n"}
+    for i in range(1, n + 1):
+        files["m%d.cb" % i] = "import m%d;\nimport m%d;\nexport int f%d() { return %d; }\n" % (i - 1, i - 1, i, i)
+    return ("import m%d;\nvoid main() { println(f%d()); }\n" % (n, n)).encode(), files
+
+
 _ARR_TD = re.compile(rb"typedef\s+[A-Za-z_]\w*\s*(?:\[\w*\]\s*)+([A-Za-z_]\w*)\s*;")
 _PLAIN_TD = re.compile(rb"typedef\s+([A-Za-z_]\w*)\s+([A-Za-z_]\w*)\s*;")
 
@@ -1535,15 +1675,6 @@ def trips_nested_array_typeinfo(data):
                 names.add(a)
                 grew = True
     return any(re.search(rb"\b" + re.escape(n) + rb"\s*\[", data) for n in names)
-
-
-_SELF_ALIAS = re.compile(rb"typedef\s+([A-Za-z_]\w*)\s+\1\s*;")
-
-
-def decl_exec_ok(data):
-    """avoid C10-backend-typedef-self-alias-recursion in the EXECUTED copy of a declaration program: a literal  typedef X X;
-    (the flattened variants typedef A B; typedef B A; cannot be seen in the text - they are tolerated by signature on the sanitised build)"""
-    return _SELF_ALIAS.search(data) is None
 
 
 # ------------------------------------------------------------------ shrinking
@@ -1680,9 +1811,6 @@ def run(rep):
         CPU limit of run_case"""
         if c[3] != "parse" or c[0] in ("amplify-deep", "amplify-exec", "amplify-stacklimit") or n > 4 * MAX_BYTES:
             return None
-        if c[0] == "decl" and c[1].startswith("import-cycle"):
-            return None       # a cycle of modules is re-parsed until the stack guard ends it (about 5 000 parsers for a 40-byte file, < 1 s
-                              # on the plain build): bounded by the guard, not by the input - only the 10 s limit applies
         return suspect(n) * (3 if c[5] else 1)
     rep.coverage["timing"] = {"reference": "median CPU / size of the %d unmodified repository files, sanitised build, this run" % len(base),
                               "ref_cpu_s": round(ref_cpu, 4), "ref_bytes": ref_bytes, "suspicious_above": "20 x ref_cpu x max(1, n / ref_bytes)",
@@ -1778,15 +1906,19 @@ def run(rep):
         for j, (label, data, files) in enumerate(decl_programs(rng_for(seed, "c10-decl", k))):
             if trips_nested_array_typeinfo(data + b"".join(v.encode() for v in (files or {}).values())):
                 continue
-            x = {"build": "plain" if (files or (k + j) % 4) else "asan"}
+            x = {"build": "plain" if (k + j) % 4 else "asan"}
             if files:
                 x["files"] = files
-            if label.startswith("import-cycle"):
-                x["stack"] = STACK_LIMITS[0]     # avoid C10-import-cycle-diagnostic-flood: with a 2 MiB stack limit the stack guard ends the
-                                                 # chain of nested parsers after ~1 100 modules (14 MB of diagnostics), not ~5 200 (290 MB)
             cases.append(("decl", label, data, "parse", [], False, x))
-            if label in ("all", "none") and decl_exec_ok(data):
+            if label in ("all", "none"):
                 cases.append(("decl-exec", label, data, "full", [], False, {"build": "asan"}))
+            elif label.startswith("import-cycle"):
+                # executed as well (from the directory of the modules): the run-time loader loads every module once
+                cases.append(("decl-exec", label, data, "full", [], False, {"build": "asan" if k % 2 else "plain", "files": files}))
+    # modules that import each other, EXECUTED, with the output they must print (plain and sanitised build alternately)
+    for k in range(60 if quick else 1500):
+        label, src, files, want = import_exec_case(rng_for(seed, "c10-impexec", k))
+        cases.append(("import-exec", label, src.encode(), "full", [], False, {"build": "asan" if k % 2 else "plain", "files": files, "expect_out": want}))
     # declaration sequences of the MODELLED fragment (coq/C10/Typedefs.v): the extracted model now, the repository's parser below;
     # a sample of them is also executed (the interpreter's own typedef table)
     td_cases = td_exhaustive(2 if quick else 3) + [td_case(rng_for(seed, "c10-td", k)) for k in range(N_TD_QUICK if quick else N_TD_THOROUGH)]
@@ -1801,8 +1933,8 @@ def run(rep):
     # every struct (the interpreter's own cycle check over value / array members, StructManager::validate..., and struct creation)
     sg_cases = [sg_case(rng_for(seed, "c10-sg", k)) for k in range(800 if quick else 20000)]
     sg_m = sg_model(sg_cases)
-    for (pool, prog), mb in list(zip(sg_cases, sg_m))[:(400 if quick else 5000)]:
-        if mb.get("err") == "-":
+    for (pool, prog, _qs, execable), mb in list(zip(sg_cases, sg_m))[:(400 if quick else 5000)]:
+        if mb.get("err") == "-" and execable:
             names = [n for n in mb.get("SD", [])]
             cases.append(("sg-exec", "", (sg_text(prog) + "void main() { %s println(1); }\n" % " ".join("%s v%d;" % (n, k) for k, n in enumerate(names))).encode(),
                           "full", [], False, {"build": "plain"}))
@@ -1811,7 +1943,8 @@ def run(rep):
     if os.path.exists(corpus):
         for c in json.load(open(corpus)):
             cases.append(("corpus", c.get("label", ""), finding_input(c) if "gen" in c else bytes.fromhex(c["source_hex"]),
-                          c.get("mode", "parse"), c.get("args", []), bool(c.get("big_stack")), {"build": c.get("build", "asan")}))
+                          c.get("mode", "parse"), c.get("args", []), bool(c.get("big_stack")),
+                          dict({"build": c.get("build", "asan")}, **{k: c[k] for k in ("files", "expect_out") if k in c})))
 
     # directive-only files: model verdict
     pp_cases = []
@@ -1895,6 +2028,7 @@ def run(rep):
     rep.coverage["campaign_wall_s"] = round(time.time() - t_run, 1)
 
     guard_hits = {"parser": 0, "evaluator": 0}
+    imp_bad = []
     exec_baseline, baseline_hits = {}, []
     for f in findings:
         exec_baseline.update(f.get("baseline", {}))
@@ -1920,6 +2054,18 @@ def run(rep):
                 s = None
         if s:
             failures.append((c[0], c[1], c[2], c[3], c[4], c[5], r, s, extra(c)))
+        elif "expect_out" in extra(c) and (r["rc"] != 0 or r["out"] != extra(c)["expect_out"]):
+            imp_bad.append((c, r))
+    rep.coverage["import_exec"] = {"programs": hist.get("import-exec", 0), "wrong_output_or_status": len(imp_bad)}
+    imp_bad.sort(key=lambda cr: sum(len(v) for v in extra(cr[0])["files"].values()))
+    for c, r in imp_bad[:3]:
+        x = extra(c)
+        rep.violation("import-exec", {"source": show(c[2], 1500), "source_hex": c[2].hex(), "files": x["files"], "mode": "full", "build": x["build"],
+                                      "label": c[1], "expected_stdout": x["expect_out"], "stdout": r["out"][:1500], "rc": r["rc"],
+                                      "stderr": r["err"][:1000],
+                                      "demanded": "modules that import each other are each loaded once and the program prints what its functions return"},
+                      "modules that import each other (%s, %s build): main exits %d and prints %r, demanded %r" % (
+                          c[1], x["build"], r["rc"], r["out"][:80], x["expect_out"][:80]))
     rep.coverage["stack_guard_diagnostics_seen"] = guard_hits
     rep.coverage["repo_exec"] = {"programs": hist.get("repo-exec", 0), "listed_in_baseline": len(exec_baseline),
                                  "baseline_entries_still_failing": len(baseline_hits)}
@@ -2091,43 +2237,70 @@ def run(rep):
                       no_failing_input=not concrete)
 
     # ---- struct value-member cycle check: the repository's parser vs StructGraph.sg_run (verdict and key set)
-    sg_i = td_leaf_run(tdleaf, [(sg_text(pg), []) for _, pg in sg_cases])
+    sg_i = td_leaf_run(tdleaf, [(sg_text(c[1]), c[2]) for c in sg_cases])
     evaluations += len(sg_cases)
     hist["struct-graph"] = len(sg_cases)
-    sg_bad = [(c, mb, ib) for c, mb, ib in zip(sg_cases, sg_m, sg_i)
-              if not ib.get("skip") and (mb.get("err") != ib.get("err") or mb.get("SD") != ib.get("SD") or ib.get("dead"))]
+    sg_bad = [(c, mb, ib) for c, mb, ib in zip(sg_cases, sg_m, sg_i) if sg_diff(mb, ib)]
+    # the proved cost bound, evaluated on every check of the stream (extracted detect_calls against the table's value members)
+    n_dc = sum(len(mb.get("DC", {})) for mb in sg_m)
+    dc_max = max([n for mb in sg_m for n in mb.get("DCn", {}).values()] or [0])
     n_skip = sum(1 for ib in list(td_i) + list(sg_i) if ib.get("skip"))
     if n_skip:
         rep.notes.append("%d leaf-driver case(s) could not be decided (driver run failed twice) and were skipped" % n_skip)
-    rep.coverage["struct_graph"] = {"cases": len(sg_cases), "disagreements": len(sg_bad),
+    rep.coverage["struct_graph"] = {"cases": len(sg_cases), "disagreements": len(sg_bad), "cycle_checks_compared": n_dc,
+                                    "max_activations_of_one_check_model": dc_max,
+                                    "deep_diamonds_and_layered_graphs": sum(1 for c in sg_cases if not c[3]),
                                     "self_recursive": sum(1 for mb in sg_m if mb.get("err") == "SR"),
                                     "circular": sum(1 for mb in sg_m if mb.get("err") == "CR"), "accepted": sum(1 for mb in sg_m if mb.get("err") == "-")}
     sg_bad.sort(key=lambda b: (0 if b[2].get("dead") else 1, len(b[0][1])))
-    for (pool, prog), mb, ib in sg_bad[:3]:
-        changed = True
-        while changed and len(prog) > 1:
+    # at most three reports: walks of the code that do not end first (two of them), then a difference in a finished walk
+    sg_dead, sg_live = [b for b in sg_bad if b[2].get("dead")], [b for b in sg_bad if not b[2].get("dead")]
+    sg_rep = (sg_dead[:2] + sg_live[:1] + sg_dead[2:] + sg_live[1:])[:3]
+    for (pool, prog, qs, _x), mb, ib in sg_rep:
+        changed, budget = True, 120
+        if ib.get("dead"):
+            # the walk of the CODE did not end within the leaf's CPU limit: if `main` itself fails on these declarations, they are the input
+            r0 = run_case(plain, (sg_text(prog) + "void main() { }\n").encode(), "parse", cpu=5)
+            if signature(r0):
+                changed = False
+        while changed and len(prog) > 1 and budget > 0:
             changed = False
             for k in range(len(prog)):
+                budget -= 1
+                if budget <= 0:
+                    break
                 cand = prog[:k] + prog[k + 1:]
-                m1 = sg_model([(pool, cand)])[0]
-                i1 = td_leaf_run(tdleaf, [(sg_text(cand), [])])[0]
-                if (not i1.get("skip") and (m1.get("err") != i1.get("err") or m1.get("SD") != i1.get("SD") or i1.get("dead"))
-                        and bool(i1.get("dead")) == bool(ib.get("dead"))):
+                m1 = sg_model([(pool, cand, qs, False)])[0]
+                i1 = td_leaf_run(tdleaf, [(sg_text(cand), qs)])[0]
+                if sg_diff(m1, i1) and bool(i1.get("dead")) == bool(ib.get("dead")):
                     prog, mb, ib, changed = cand, m1, i1, True
                     break
+        dq = sorted(q for q in mb.get("DC", {}) if tuple(mb["DC"][q]) != tuple(ib.get("DC", {}).get(q, ())))
+        if dq and not ib.get("dead"):
+            qs = dq[:1]
+            mb = sg_model([(pool, prog, qs, False)])[0]
+            ib = td_leaf_run(tdleaf, [(sg_text(prog), qs)])[0]
         data = (sg_text(prog) + "void main() { }\n").encode()
         r = run_case(plain, data, "parse", cpu=5)
         sg = signature(r)
-        payload = {"sg_line": sg_line(prog), "sg_source": sg_text(prog), "model": {"err": mb.get("err"), "structs": mb.get("SD")},
-                   "impl": {"err": ib.get("err"), "structs": ib.get("SD"), "dead": ib.get("dead")},
-                   "broken": "correspondence StructGraph.sg_run / detect = parseStructDeclaration / detectCircularReference "
-                             "(carrier of struct_cycle_check_total)"}
+        payload = {"sg_line": sg_line(prog, qs), "sg_source": sg_text(prog), "sg_queries": qs,
+                   "model": {"err": mb.get("err"), "structs": mb.get("SD"), "cycle_checks": mb.get("DC")},
+                   "impl": {"err": ib.get("err"), "structs": ib.get("SD"), "dead": ib.get("dead"), "cycle_checks": ib.get("DC")},
+                   "differs_in": sg_diff(mb, ib),
+                   "broken": "correspondence StructGraph.sg_run / detectc = parseStructDeclaration / detectCircularReference: verdict, key set, "
+                             "and per cycle check the answer and the visited set it leaves (carrier of struct_cycle_check_total, "
+                             "struct_cycle_check_walks_each_struct_once, struct_cycle_check_linear, struct_cycle_check_correct)"}
         if sg:
             payload.update({"source": show(data, 600), "source_hex": data.hex(), "mode": "parse", "build": "plain", "signature": sg,
                             "rc": r["rc"], "demanded": "exit status 0 or 1 with a diagnostic; no signal, no hang"})
+        dctxt = ""
+        if "DC" in sg_diff(mb, ib) and qs:
+            q = qs[0]
+            dctxt = "; cycle check %s: model answers %s and leaves visited = {%s}, the code answers %s and leaves {%s}" % (
+                (q,) + tuple(mb.get("DC", {}).get(q, ("?", "?"))) + tuple(ib.get("DC", {}).get(q, ("?", "?"))))
         rep.violation("corr-structs", payload,
-                      "the repository's struct parser and the proved cycle-check model disagree on %r: model %s, code %s%s" % (
-                          sg_text(prog).replace("\n", " ")[:160], mb.get("err"), ib.get("err") or ib.get("dead"),
+                      "the repository's struct parser and the proved cycle-check model disagree on %r (%s): model %s, code %s%s%s" % (
+                          sg_text(prog).replace("\n", " ")[:160], ", ".join(sg_diff(mb, ib)), mb.get("err"), ib.get("err") or ib.get("dead"), dctxt,
                           ("; main on this input: " + sg) if sg else ""), no_failing_input=not sg)
 
     # ---------------- (4) failures of the oracle: known signature (tolerated stream leak) or VIOLATION
@@ -2344,9 +2517,12 @@ def run(rep):
                 "<= 8 KiB; directive-only files with -D; println(<expr>); programs; generated CbCore programs executed fully. All on the "
                 "ASan+UBSan build of the current tree. Declaration level: sequences of typedef / struct / enum / union / interface / impl "
                 "declarations over 2-5 names that reuse names between tags and aliases, re-declare, self-reference and close typedef cycles of "
-                "length 1-4 with a tail, each followed by uses of every name (one program per name and use form), import cycles of 1-4 modules "
-                "(plain build, every fourth on the sanitised one; the all-uses program also executed); the modelled fragments - typedef tables "
-                "(all sequences of <= 2 of 30 declarations on three names + random / cycle-directed ones) and struct value-member graphs - "
+                "length 1-4 with a tail, each followed by uses of every name (one program per name and use form), import cycles of 1-4 modules, parsed "
+                "and executed (plain build, every fourth on the sanitised one; the all-uses program also executed); modules that import each other "
+                "with exported functions / constants / structs, executed with the output they must print; the modelled fragments - typedef tables "
+                "(all sequences of <= 2 of 30 declarations on three names + random / cycle-directed / self-alias-directed ones) and struct "
+                "value-member graphs (random over <= 6 names, diamonds of 22-60 levels, layered graphs; per graph up to 42 single cycle checks: "
+                "answer and visited set) - "
                 "through the leaf driver c10_typedefs.cpp (repository parser) against the extracted model, table for table, and executed. "
                 "distinct_nontrivial = distinct inputs (sha256) of at least 8 bytes and 3 different "
                 "blank-separated words for which the front end produced a diagnostic with exit 1 or accepted the program, plus distinct lexer "
@@ -2385,16 +2561,22 @@ def replay_finding(f, asan, plain):
     impl = asan if rp.get("build", "asan") == "asan" else plain
     if rp.get("kind") == "scaling":
         # CPU time of the two sizes: super-linear if time grows clearly faster than size
-        key = "n" if rp["gen"]["kind"] == "repeat" else "depth"
-        a = finding_input({"gen": dict(rp["gen"], **{key: rp["n_small"]})})
-        b = finding_input({"gen": dict(rp["gen"], **{key: rp["n_large"]})})
-        ra = run_case(impl, a, rp.get("mode", "parse"), cpu=30)
-        rb = run_case(impl, b, rp.get("mode", "parse"), cpu=30)
+        if rp["gen"]["kind"] == "import-diamond":
+            (a, fa), (b, fb) = import_diamond(rp["n_small"]), import_diamond(rp["n_large"])
+            size_a, size_b = (len(x) + sum(len(v) for v in f.values()) for x, f in ((a, fa), (b, fb)))
+        else:
+            key = "n" if rp["gen"]["kind"] == "repeat" else "depth"
+            a = finding_input({"gen": dict(rp["gen"], **{key: rp["n_small"]})})
+            b = finding_input({"gen": dict(rp["gen"], **{key: rp["n_large"]})})
+            fa = fb = None
+            size_a, size_b = len(a), len(b)
+        ra = run_case(impl, a, rp.get("mode", "parse"), cpu=30, files=fa)
+        rb = run_case(impl, b, rp.get("mode", "parse"), cpu=30, files=fb)
         if ra["rc"] not in (0, 1) or rb["rc"] not in (0, 1, -24):
             return None, "unexpected exit %d/%d" % (ra["rc"], rb["rc"])
         ratio_t = (rb["cpu"] - 0.003) / max(ra["cpu"] - 0.003, 1e-3)
-        ratio_n = len(b) / len(a)
-        return ratio_t > 1.8 * ratio_n, "cpu %.3fs for %d bytes, %.3fs for %d bytes" % (ra["cpu"], len(a), rb["cpu"], len(b))
+        ratio_n = size_b / size_a
+        return ratio_t > 1.8 * ratio_n, "cpu %.3fs for %d bytes, %.3fs for %d bytes" % (ra["cpu"], size_a, rb["cpu"], size_b)
     data = finding_input(rp)
     r = run_case(impl, data, rp.get("mode", "parse"), rp.get("args", []), cpu=rp.get("cpu", 10))
     if rp.get("kind") == "stderr-count":
@@ -2441,6 +2623,9 @@ def replay(path):
                     s = "slow"
             elif r["cpu"] > 20 * ref * max(1.0, len(src) / 2000.0):
                 s = "slow"
+        if s is None and "expected_stdout" in c and (r["rc"] != 0 or r["out"] != c["expected_stdout"]):
+            s = "wrong-output"
+            print("stdout %r, demanded %r" % (r["out"][:300], c["expected_stdout"][:300]))
         print("exit", r["rc"], "cpu %.3f" % r["cpu"], "signature", s)
         print(r["err"][:1500])
         return 1 if s else 0
@@ -2449,11 +2634,12 @@ def replay(path):
         tdleaf = common.build_leaf("c10_typedefs", td_leaf_sources())
         rc, o, e = common.sh([common.model_bin(PROP), "structs"], input=(c["sg_line"] + "\n").encode(), timeout=60)
         mb = _td_blocks(o)[0]
-        ib = td_leaf_run(tdleaf, [(c["sg_source"], [])], cpu=5)[0]
+        ib = td_leaf_run(tdleaf, [(c["sg_source"], c.get("sg_queries", []))], cpu=5)[0]
         print(c["sg_source"])
-        print("model:", mb.get("err"), mb.get("SD"))
-        print("impl: ", ib.get("err"), ib.get("SD"), ib.get("dead"))
-        return 0 if (mb.get("err") == ib.get("err") and mb.get("SD") == ib.get("SD") and not ib.get("dead")) else 1
+        print("model:", mb.get("err"), mb.get("SD"), mb.get("DC"))
+        print("impl: ", ib.get("err"), ib.get("SD"), ib.get("dead"), ib.get("DC"))
+        print("differs in:", sg_diff(mb, ib))
+        return 1 if sg_diff(mb, ib) else 0
     if "td_line" in c:
         common.ensure_model(PROP)
         tdleaf = common.build_leaf("c10_typedefs", td_leaf_sources())
